@@ -1018,3 +1018,80 @@ package query
 //@   loop 3 invariant forall(k, 0, $i, primaries[pos + k] == view.RecordSet[indices[k]][i][0])
 //@   loop 3 modifies primaries[*]
 //@   modifies records[*]
+
+// ---------------------------------------------------------------------------------------------
+// C20: within a transaction a table is read from its file at most once per access mode: a cached view is reused
+// (no load, no new handler) unless an update is requested on a copy loaded for reading, which reloads it once.
+//@ ghost var fileLoads int
+//@ ghost var handlersOpened int
+//@ ghost var handlersClosed int
+//@ func loadViewFromFile
+//@   trusted assumed: parses the open file into a fresh view (format readers are dependencies outside the subset)
+//@   ghostset fileLoads = fileLoads + 1
+//@   ensures result1 == nil ==> result0 != nil && fresh(result0) && result0.FileInfo == fileInfo
+//@   modifies * except F:query.ReferenceScope. F:query.Transaction. F:query.FileInfo.ForUpdate#
+//@ func (*file.Container).CreateHandlerForUpdate
+//@   trusted assumed summary of createHandler + NewHandlerForUpdate (verified in package file)
+//@   ensures result1 == nil ==> result0 != nil
+//@   ensures handlersOpened == old(handlersOpened) + ite(result1 == nil, 1, 0)
+//@   modifies handlersOpened
+//@   modifies * except F:query.ReferenceScope. F:query.Transaction. F:query.View. F:query.FileInfo.ForUpdate#
+//@ func (*file.Container).CreateHandlerForRead
+//@   trusted assumed summary of createHandler + NewHandlerForRead (verified in package file)
+//@   ensures result1 == nil ==> result0 != nil
+//@   ensures handlersOpened == old(handlersOpened) + ite(result1 == nil, 1, 0)
+//@   modifies handlersOpened
+//@   modifies * except F:query.ReferenceScope. F:query.Transaction. F:query.View. F:query.FileInfo.ForUpdate#
+
+//@ func NewFileInfo
+//@   trusted assumed: resolves the table path and builds its FileInfo (path search, outside the subset)
+//@   ensures result1 == nil ==> result0 != nil && fresh(result0) && !result0.ForUpdate
+//@   modifies nothing
+//@ func CreateFilePath
+//@   trusted assumed: path computation
+//@   modifies nothing
+//@ func SearchFilePath
+//@   trusted assumed: path search
+//@   modifies nothing
+//@ func (*FileInfo).SetDefaultFileInfoAttributes
+//@   trusted assumed: copies format attributes; never the ForUpdate flag
+//@   modifies * except F:query.ReferenceScope. F:query.Transaction. F:query.View. F:query.FileInfo.ForUpdate# F:query.FileInfo.Path#
+//@ func (ViewMap).Load
+//@   trusted assumed ghost-free summary of the sync.Map behind the table cache
+//@   ensures result1 ==> result0 != nil && result0.FileInfo != nil
+//@   modifies nothing
+//@ func (ViewMap).Set
+//@   trusted assumed: publishes the view in the cache
+//@   modifies * except F:query.ReferenceScope. F:query.Transaction. F:query.View. F:query.FileInfo.
+//@ func (ViewMap).Dispose
+//@   trusted assumed: closes the cached view's handler and drops the entry
+//@   modifies * except F:query.ReferenceScope. F:query.Transaction. F:query.View. F:query.FileInfo.
+//@ func (*ReferenceScope).LoadFilePath
+//@   trusted assumed: per-scope path cache lookup
+//@   modifies nothing
+//@ func (*ReferenceScope).FilePathExists
+//@   trusted assumed
+//@   modifies nothing
+//@ func (*ReferenceScope).StoreFilePath
+//@   trusted assumed: per-scope path cache
+//@   modifies * except F:query.ReferenceScope.Tx# F:query.Transaction. F:query.View. F:query.FileInfo.
+//@ func ConvertFileHandlerError
+//@   trusted assumed: error conversion
+//@   ensures result != nil
+//@   modifies nothing
+//@ func appendCompositeError
+//@   trusted assumed: error composition
+//@   ensures e1 != nil ==> result != nil
+//@   modifies nothing
+
+//@ func cacheViewFromFile
+//@   property C20
+//@   requires scope != nil && scope.Tx != nil
+//@   assert after call query.loadViewFromFile: [reload-only-when-uncached-or-upgrading-a-read-copy] !isCached || (forUpdate && !fileInfo.ForUpdate)
+//@   assert after call (*file.Container).CreateHandlerForUpdate: [handler-only-when-uncached-or-upgrading] !isCached || (forUpdate && !fileInfo.ForUpdate)
+//@   assert after call (*file.Container).CreateHandlerForRead: [handler-only-when-uncached] !isCached
+//@   ensures [never-more-than-one-load] fileLoads <= old(fileLoads) + 1 && handlersOpened <= old(handlersOpened) + 1
+//@   ensures [a-result-without-a-load-comes-from-the-cache] err == nil && fileLoads == old(fileLoads) ==> isCached && handlersOpened == old(handlersOpened)
+//@   ensures [read-handler-released-before-return] !forUpdate && handlersOpened == old(handlersOpened) + 1 ==> handlersClosed >= old(handlersClosed) + 1
+//@   ensures [loaded-for-update-is-marked] err == nil && forUpdate && fileLoads == old(fileLoads) + 1 ==> view.FileInfo.ForUpdate
+//@   modifies *
